@@ -130,6 +130,75 @@ func pqReaderK1(rep *Report, m *model.Client, e *pqengine.Engine, r *rand.Rand) 
 	}
 }
 
+// K1: which pages an ACK frees and where the new head is - the Coq model of collectFreePages (Model/PQAck.v,
+// theorem ack_pages_spec) on the real page headers vs. what the implementation did (new head page, pages freed,
+// new read id). Installed as the ACK hook of a queue engine.
+func pqAckK1(rep *Report, m *model.Client) func(e *pqengine.Engine, n int, before, after pqengine.ChainState) {
+	return func(e *pqengine.Engine, n int, before, after pqengine.ChainState) {
+		if len(before.Pages) == 0 {
+			return
+		}
+		var ps []string
+		var id0 uint64
+		have := false
+		for k, pg := range before.Pages {
+			if pg.Off == 0 {
+				continue
+			}
+			if !have {
+				id0, have = pg.First, true
+			}
+			cnt := pg.Last - pg.First + 1
+			if cnt > 1<<20 {
+				return
+			}
+			for i := uint64(0); i < cnt; i++ {
+				ps = append(ps, fmt.Sprint(k))
+			}
+		}
+		if !have {
+			return
+		}
+		startID := before.HeadID
+		if before.ReadPage != 0 {
+			startID = before.ReadID
+		}
+		N := int(startID-id0) + n
+		if N < 1 || N > len(ps) {
+			return
+		}
+		T := len(before.Pages) - 1
+		res := strings.Fields(m.Ask(fmt.Sprintf("ackpages [%s] %d %d", strings.Join(ps, ","), T, N)))
+		rep.count("k1:ack-page-decisions", 1)
+		if len(res) != 3 {
+			return
+		}
+		var kept int
+		fmt.Sscan(res[0], &kept)
+		if kept > 0 {
+			rep.count("k1:ack-page-decisions-freeing-pages", 1)
+		}
+		bad := ""
+		switch {
+		case res[1] != "0":
+			bad = "the model takes the clean-all exit"
+		case kept >= len(before.Pages):
+			bad = "model keeps a page beyond the chain"
+		case after.HeadPage != before.Pages[kept].ID:
+			bad = fmt.Sprintf("new head page: implementation %d, model %d (chain index %d)", after.HeadPage, before.Pages[kept].ID, kept)
+		case before.InUse-after.InUse != uint64(kept):
+			bad = fmt.Sprintf("pages freed: implementation %d, model %d", before.InUse-after.InUse, kept)
+		case after.ReadID != startID+uint64(n):
+			bad = fmt.Sprintf("new read id: implementation %d, expected %d", after.ReadID, startID+uint64(n))
+		}
+		if bad != "" {
+			rep.violate(Violation{Kind: "correspondence", Sig: "pq-ack/pages-freed-and-new-head",
+				Detail: fmt.Sprintf("ACK(%d): %s; page headers before (id first last off): %v; root before head=%d/%d read=%d/%d tail=%d", n, bad, before.Pages, before.HeadPage, before.HeadID, before.ReadPage, before.ReadID, before.TailID),
+				Replay: pqReplay{Config: e.Cfg, Log: tailLog(e.Log, 300), Mode: "ack-k1"}})
+		}
+	}
+}
+
 func minInt(a, b int) int {
 	if a < b {
 		return a
@@ -346,7 +415,7 @@ func pqCrashHistory(rep *Report, m *model.Client, cfg pqengine.Config, ops []pqe
 // ---------------------------------------------------------------------------------------------
 // C12: space bound and full-file behaviour
 
-func c12Cycle(rep *Report, cfg pqengine.Config, hseed int64, cycles int, tight bool) {
+func c12Cycle(rep *Report, cfg pqengine.Config, hseed int64, cycles int, tight bool, ackModel *model.Client) {
 	r := rand.New(rand.NewSource(hseed))
 	e, err := pqengine.New(cfg)
 	if err != nil {
@@ -358,6 +427,9 @@ func c12Cycle(rep *Report, cfg pqengine.Config, hseed int64, cycles int, tight b
 		if op.Kind == "event" || op.Kind == "flush" || op.Kind == "ack" {
 			e.CheckCounters("after " + op.String())
 		}
+	}
+	if ackModel != nil {
+		e.AckHook = pqAckK1(rep, ackModel)
 	}
 	checkSpace := func(what string) {
 		if e.File == nil {
@@ -702,7 +774,13 @@ func init() {
 	register("c12", func(args []string) int {
 		f := parseFlags("c12", args)
 		rep := newReport("C12", f)
-		rep.Rule = "fill-to-error / drain cycles on bounded files of 64-256 pages (and unbounded ones): events of 1 byte .. 3 pages (in every other run half of them sized to end within 10 bytes of the end of the write buffer, so that the implicit flush happens in Next) are appended until Write/Next/Flush reports the file full, then everything flushed is read and ACKed (partially, then completely), space accounting after every ACK: data pages held by the file <= 1 (queue header) + ceil(framed un-ACKed bytes / payload) + pages of the most recent event + 2; counters; the events buffered while the file was full must be flushed by a later call and delivered in order (slice-of-events oracle, final drain). Non-trivial: every run (distinct config, seed, traffic)."
+		rep.Rule = "K1: every ACK decision (pages freed, new head page, new read id) vs. the Coq model of collectFreePages on the real page headers (theorem ack_pages_spec); fill-to-error / drain cycles on bounded files of 64-256 pages (and unbounded ones): events of 1 byte .. 3 pages (in every other run half of them sized to end within 10 bytes of the end of the write buffer, so that the implicit flush happens in Next) are appended until Write/Next/Flush reports the file full, then everything flushed is read and ACKed (partially, then completely), space accounting after every ACK: data pages held by the file <= 1 (queue header) + ceil(framed un-ACKed bytes / payload) + pages of the most recent event + 2; counters; the events buffered while the file was full must be flushed by a later call and delivered in order (slice-of-events oracle, final drain). Non-trivial: every run (distinct config, seed, traffic)."
+		m, err := model.Start()
+		if err != nil {
+			fmt.Fprintln(os.Stderr, err)
+			return 2
+		}
+		defer m.Close()
 		r := rand.New(rand.NewSource(f.seed))
 		n, cycles := 36, 8
 		if f.tier == "thorough" {
@@ -718,7 +796,7 @@ func init() {
 		}
 		for i := 0; i < n; i++ {
 			hseed := r.Int63()
-			c12Cycle(rep, cfgs[i%len(cfgs)], hseed, cycles, (i/len(cfgs))%2 == 1)
+			c12Cycle(rep, cfgs[i%len(cfgs)], hseed, cycles, (i/len(cfgs))%2 == 1, m)
 			if i < 1 {
 				rep.sample(map[string]interface{}{"config": cfgs[i%len(cfgs)].String(), "cycles": cycles})
 			}
@@ -806,7 +884,7 @@ func init() {
 		full := []pqengine.Config{{PageSize: 1024, MaxSize: 64 * 1024, WriteBuffer: 0}, {PageSize: 1024, MaxSize: 96 * 1024, WriteBuffer: 4096},
 			{PageSize: 1024, MaxSize: 128 * 1024, WriteBuffer: 16 * 1024}}
 		for i := 0; i < n/20+2; i++ {
-			c12Cycle(rep, full[i%len(full)], r.Int63(), 6, i%2 == 1)
+			c12Cycle(rep, full[i%len(full)], r.Int63(), 6, i%2 == 1, nil)
 			rep.count("full-file-cycles", 1)
 		}
 		return rep.finish(f)
